@@ -217,24 +217,24 @@ def run(chk):
         v2 = sym.subst(val2, ren)
         key2 = "approxPhase == modSwitchToTorus32(modSwitchFromTorus32(phase)) on normal forms"
         problems = []
-        okshape = v2[0] == "op" and v2[1] == ">>" and v2[3] == I(32)
-        if not okshape:
-            problems.append("result %s is not (...) >> 32" % sym.show(v2))
+        facts_m = [sym.sub(m, I(1)), sym.sub(I(30), m)]
+        sl = bits.slice_of(v2, {M: m}, facts_m)
+        if sl is None:
+            chk.broken("approxPhase: the bit range selected by %s cannot be compared" % sym.show(v2)[:100])
+        X, a_, b_, c_ = sl
+        if sym.contains(X, ph) and (a_, b_, c_) == (ZERO, I(64), ZERO):
+            problems.append("result %s does not round the phase to a multiple of the interval" % sym.show(v2)[:120])
         else:
-            inner = v2[2]
-            # inner = X - X % Iv
-            mods = [a for a in sym.atoms_top(inner) if a[0] == "op" and a[1] == "%"]
-            if len(mods) != 1:
-                problems.append("no 'X - X %% interval' form in %s" % sym.show(inner))
-            else:
-                X, Iv = mods[0][2], mods[0][3]
-                if sym.add(inner, mods[0]) != X:
-                    problems.append("value is %s, expected X - X %% interval" % sym.show(inner))
-                if X_from is not None and bits.normalize(X, env) != bits.normalize(X_from, env):
-                    problems.append("rounded quantity %s differs from modSwitchFromTorus32's %s" % (sym.show(X), sym.show(X_from)))
-                intervals["approxPhase"] = Iv
-        chk.require(not problems, "R2", key2, where=f2.where, ok="(X - X % I) >> 32 with the same X = p*2^32 + I/2 and the same I: "
-                    "X - X % I = (X / I) * I", bad="; ".join(problems), variant=vn)
+            want_s = sym.sub(I(64), m)
+            if a_ != want_s or b_ != I(64):
+                problems.append("approxPhase keeps bits [%s, %s) of the offset phase, the interval index is bits [64-m, 64)" % (sym.show(a_), sym.show(b_)))
+            if c_ != sym.sub(want_s, I(32)):
+                problems.append("the interval index is placed at bit %s of the result, expected %s (index * 2^(32-m))" % (sym.show(c_), sym.show(sym.sub(want_s, I(32)))))
+            if X_from is not None and bits.normalize(X, env) != bits.normalize(X_from, env):
+                problems.append("rounded quantity %s differs from modSwitchFromTorus32's %s" % (sym.show(X), sym.show(X_from)))
+            intervals["approxPhase"] = ("op", "<<", I(1), a_)
+        chk.require(not problems, "R2", key2, where=f2.where, ok="bits [64-m, 64) of the same X = p*2^32 + I/2, placed at bit 32-m: "
+                    "floor(X / I) * I >> 32", bad="; ".join(problems), variant=vn)
         # ---- modSwitchToTorus32
         f3, val3 = vals["modSwitchToTorus32"]
         mu, M3 = sym.sym(f3.params[0]["n"]), sym.sym(f3.params[1]["n"])
@@ -263,7 +263,15 @@ def run(chk):
             fn, _ = vals[name]
             bad = []
             n_ops = 0
-            for n in walk(fn.d.get("body")):
+            bodies = [fn.d.get("body")]
+            seen_h = set()
+            for body_ in bodies:
+                for c_ in walk(body_):
+                    g_ = v.defs.get(c_.get("cusr")) if c_.get("k") == "call" else None
+                    if g_ is not None and g_.get("static") and not g_.get("record") and g_.usr not in seen_h:
+                        seen_h.add(g_.usr)
+                        bodies.append(g_.d.get("body"))          # file-local helpers are part of the function
+            for n in walk(bodies):
                 if n.get("k") == "bin" and n.get("op") in ("/", "%", ">>", "<<", "+", "*", "-") or \
                         (n.get("k") == "assign" and n.get("op") in ("-=", "+=")):
                     t = n.get("t", "")
